@@ -50,16 +50,41 @@ Proof.
 Qed.
 
 (* ------------------------------------------------------------ the *_path glue *)
-Theorem gen_route_path_is_model c e rs n els o kw : gen_route_path c e rs n els o kw = route_path c e rs n els o kw.
+Theorem gen_route_path_is_model c e xs rs n els o kw :
+  gen_route_path c e xs rs n els o kw = route_path_x c e xs rs n els o kw.
 Proof. reflexivity. Qed.
 Theorem gen_resource_path_is_model c e rs names els o vroot rn :
   gen_resource_path c e rs names els o vroot rn = resource_path_x c e rs names els o vroot rn.
 Proof. reflexivity. Qed.
 Theorem gen_static_path_is_model e rs regs path o kw : gen_static_path e rs regs path o kw = static_path_x e rs regs path o kw.
 Proof. reflexivity. Qed.
-Theorem gen_current_route_path_is_model c e rs rname matched md gt els o kw :
-  gen_current_route_path c e rs rname matched md gt els o kw = current_route_path c e rs rname matched md gt els o kw.
+Theorem gen_current_route_path_is_model c e xs rs rname matched md gt els o kw :
+  gen_current_route_path c e xs rs rname matched md gt els o kw = current_route_path_x c e xs rs rname matched md gt els o kw.
 Proof. reflexivity. Qed.
+
+(* routes whose pattern is not a full URL: the _x functions are the plain ones *)
+Lemma route_url_x_plain c e xs rs n els o kw : assoc n xs = None -> route_url_x c e xs rs n els o kw = route_url c e rs n els o kw.
+Proof. intros H. unfold route_url_x. rewrite H. destruct (assoc n rs); reflexivity. Qed.
+Lemma route_path_x_plain c e xs rs n els o kw : assoc n xs = None -> route_path_x c e xs rs n els o kw = route_path c e rs n els o kw.
+Proof. intros H. unfold route_path_x, route_path. destruct (path_app_url _ e); simpl; [apply route_url_x_plain; assumption|reflexivity]. Qed.
+
+(* a route registered with a full URL: the result starts with <scheme>://<netloc of the pattern> -- port and userinfo
+   included -- where the scheme is _scheme, else the pattern's, else the request's; an _app_url (every *_path form) is refused *)
+Theorem external_route_authority c e xs rs n els o kw x u :
+  assoc n xs = Some x -> route_url_x c e xs rs n els o kw = Ok u ->
+  o_app_url o = None /\ exists rest, u = ext_app_url e o x ++ rest.
+Proof.
+  intros Hx H. unfold route_url_x in H. rewrite Hx in H. destruct (assoc n rs) eqn:Er.
+  - destruct (o_app_url o) eqn:Eo; [discriminate|]. split; [reflexivity|].
+    eapply app_url_precedence; [|eassumption]. reflexivity.
+  - unfold route_url in H. rewrite Er in H. discriminate.
+Qed.
+Theorem external_route_path_refused c e xs rs n els o kw x p :
+  assoc n xs = Some x -> assoc n rs <> None -> route_path_x c e xs rs n els o kw = Ok p -> False.
+Proof.
+  intros Hx Hr H. unfold route_path_x in H. destruct (path_app_url _ e); simpl in H; [|discriminate].
+  unfold route_url_x in H. rewrite Hx in H. destruct (assoc n rs); [discriminate|contradiction].
+Qed.
 
 (* ------------------------------------------------------------ _partial_application_url, parse_url_overrides, urlencode *)
 Lemma text_eqb_true a b : text_eqb a b = true -> a = b.
@@ -183,15 +208,23 @@ Theorem gen_overrides_honoured e s h p :
   gen_partial_application_url e s h p = rlet sn := quoted_script_name e in Ok (spec_authority e s h p ++ sn).
 Proof. rewrite gen_partial_application_url_is_model. unfold partial_application_url. rewrite overrides_honoured. reflexivity. Qed.
 
-Theorem gen_route_path_is_url_minus_authority c e rs n els o kw u :
-  o_app_url o = None -> route_url c e rs n els o kw = Ok u ->
-  exists p, gen_route_path c e rs n els o kw = Ok p /\ u = host_part e o ++ p.
-Proof. rewrite gen_route_path_is_model. apply route_path_is_url_minus_authority. Qed.
+Theorem gen_route_path_is_url_minus_authority c e xs rs n els o kw u :
+  assoc n xs = None -> o_app_url o = None -> route_url c e rs n els o kw = Ok u ->
+  exists p, gen_route_path c e xs rs n els o kw = Ok p /\ u = host_part e o ++ p.
+Proof. intros Hx. rewrite gen_route_path_is_model, route_path_x_plain by assumption. apply route_path_is_url_minus_authority. Qed.
 
-Theorem gen_current_route_path_is_url_minus_authority c e rs rname matched md gt els o kw u :
+Theorem gen_current_route_path_is_url_minus_authority c e xs rs rname matched md gt els o kw u :
+  (forall n, assoc n xs = None) ->
   o_app_url o = None -> current_route_url c e rs rname matched md gt els o kw = Ok u ->
-  exists p, gen_current_route_path c e rs rname matched md gt els o kw = Ok p /\ u = host_part e o ++ p.
-Proof. rewrite gen_current_route_path_is_model. apply current_route_path_is_url_minus_authority. Qed.
+  exists p, gen_current_route_path c e xs rs rname matched md gt els o kw = Ok p /\ u = host_part e o ++ p.
+Proof.
+  intros Hx Ho H. rewrite gen_current_route_path_is_model.
+  assert (E : current_route_path_x c e xs rs rname matched md gt els o kw = current_route_path c e rs rname matched md gt els o kw).
+  { unfold current_route_path_x, current_route_path. destruct (path_app_url _ e); simpl; [|reflexivity].
+    unfold current_route_url_x, current_route_url. destruct (match rname with Some n => Some n | None => matched end); [|reflexivity].
+    apply route_url_x_plain, Hx. }
+  rewrite E. apply current_route_path_is_url_minus_authority; assumption.
+Qed.
 
 (* parse_url_overrides, regenerated: application URL first, then '?' query, then '#' fragment, each as specified *)
 Theorem gen_parse_url_overrides_spec e o app qs fr :
